@@ -70,6 +70,19 @@ CLAIMED = {
              'table of the harness exception classes is transcribed in Model/Retry.v.',
         technique='Coq proof (induction over the outcome script; generator-state invariant for Fibonacci) + correspondence by vm_compute over exact rationals',
         design='6 C09'),
+    'C10': dict(
+        text='Theorems about a generic model of asyncio.gather over element coroutines (sequences of atomic segments; a schedule is ANY list '
+             'of element indices, an over-approximation of the event loop), for any number of elements and suspension points: the gathered '
+             'results are in request order and each element\'s own under every schedule; at every moment what an element has emitted followed '
+             'by what it has left is its own sequential trace, so once all finished every method ran exactly once; the sequential driver '
+             '(concurrent_batch=False) runs each element to completion before the next, in request order; the response array equals the one '
+             'the synchronous dispatcher model collects. Correspondence: the real AsyncDispatcher under a controlled scheduler, all '
+             'interleavings of the resolution order, suspension in methods / middlewares / error handlers, each element also run alone.',
+        note='trusted: Coq kernel + vm_compute; asyncio semantics (resolving a Future resumes exactly its awaiter up to the next suspension) '
+             'and the absence of shared mutable state between element handlers are validated only on the enumerated small schedules; OS threads '
+             'and multiple event loops are not modelled.',
+        technique='Coq proof (induction over schedules: results/trace conservation; sequential driver) + exhaustive small-schedule correspondence by vm_compute',
+        design='6 C10'),
     'C12': dict(
         text='Theorems for stacks of ANY height: with no short-circuit the trace is Enter 0..k-1, inner handler on the fully rewritten '
              'request, Exit k-1..0 and the chain returns what the outermost returns; a short-circuiting middleware makes the outcome '
